@@ -223,13 +223,43 @@ def vt_str(vt):
     return '.'.join('_' if x is None else str(x) for x in vt)
 
 
-def real_merge_paths(names):
+def real_merge_paths(names, dst=None, want_cascade=False):
     """As handle_merge_queues: BranchCascade built without destination, then get_merge_paths()."""
     from bert_e.workflow.gitwaterflow import branches as B
     c = B.BranchCascade()
+    d = B.branch_factory(None, dst) if dst else None
     for n in sorted(names):
-        c.add_branch(B.branch_factory(None, n), None)
-    return c.get_merge_paths()
+        c.add_branch(B.branch_factory(None, n), d)
+    paths = c.get_merge_paths()
+    if want_cascade:
+        def vt(b):
+            return vt_str(b.version_t) if b is not None else '-'
+        casc = ';'.join('|'.join(vt(bs[k]) for k in (B.DevelopmentBranch, B.StabilizationBranch, B.HotfixBranch))
+                        for bs in c._cascade.values()) or '-'
+        return paths, casc
+    return paths
+
+
+def paths_str(paths):
+    return '/'.join(','.join(vt_str(b.version_t) for b in p) or 'e' for p in paths) or '-'
+
+
+def check_merge_paths(ctx):
+    """get_merge_paths of the model against the real BranchCascade, for every cascade of the domain, built
+    without destination (handle_merge_queues) and with the hotfix branch as destination (pull request jobs)."""
+    cases = []
+    for devs, stab, hotfix in cascades():
+        names = cascade_names(devs, stab, hotfix)
+        hf = hotfix_name(devs, hotfix)
+        for dst in [None] + (['hotfix/' + hf] if hf else []):
+            paths, casc = real_merge_paths(names, dst, want_cascade=True)
+            cases.append((names, dst, paths_str(paths), casc))
+    answers = ctx.model.batch(['paths ' + c[3] for c in cases])
+    for (names, dst, impl, casc), model in zip(cases, answers):
+        ctx.evaluations += 1
+        ctx.count('merge_paths_checked')
+        if impl != model:
+            ctx.mismatch({'branches': names, 'destination': dst, 'cascade': casc}, impl, model, 'get_merge_paths')
 
 
 def real_targets(names, hotfix, dst):
@@ -313,7 +343,7 @@ class Group:
 
     # -- request for the extracted model -------------------------------------------------------
     def request(self, mode, force, last):
-        paths = '/'.join(','.join(vt_str(b.version_t) for b in p) or 'e' for p in self.paths) or '-'
+        paths = paths_str(self.paths)
         seen, per = [], {}
         from bert_e.workflow.gitwaterflow import branches as B
         for n in self.qnames:                       # order in which _add_branch meets the versions
@@ -564,7 +594,7 @@ def run_single(ctx, inp, tag=''):
     ctx.sample({'input': inp, 'impl': t, 'model+spec': a})
 
 
-def _chunks(work, limit=60000):
+def _chunks(work, limit=6000):
     cur, size = [], 0
     for k, e in work:
         cur.append(k)
@@ -588,6 +618,8 @@ def run(ctx):
     for name, inp in corpus_cases():
         run_single(ctx, inp, ':' + name)
         ctx.count('corpus')
+    patch_git()
+    check_merge_paths(ctx)
     # the enumeration: 0..3 pull requests completely, then 4 pull requests
     full = []
     for n in (0, 1, 2, 3):
